@@ -25,8 +25,11 @@ Oracles (none of them uses the shell search or the weight solver of the library)
            k of kptirr and every b, for shuffled k lists given as i/N floats (optionally rounded to 8..12 digits).
 A RuntimeError("Could not find a complete set") on a lattice with cond <= 50 is a violation (witness = lattice
 and mesh) when the documented defaults of kmesh_tol (or a smaller value) and search_supercell (or a larger value)
-are used; with an enlarged kmesh_tol or search_supercell=1 it is counted and the case skipped (the property only
-speaks about returned sets); lattices with cond > 50 would be skipped (the generator never produces them).
+are used and the cell is not one of the nearly symmetric ones; with an enlarged kmesh_tol, search_supercell=1 or a nearly
+symmetric cell it is counted and the case skipped (the property only speaks about returned sets); lattices with
+cond > 50 would be skipped (the generator never produces them).
+Pending (VERIF_C22_PENDING=1 reports them): a shell that is one shell only within an enlarged kmesh_tol and straddles the
+radius of the library's search ball is selected in part (.work/review_c22_finding_2.py).
 
 Input classes added by the widening review (each with a counter):
   * documented parameters: kmesh_tol (1e-9 .. 1e-3, together with nearly symmetric cells whose shells split by less than
@@ -39,8 +42,10 @@ Input classes added by the widening review (each with a counter):
   * Histories: object -> to_npz -> from_npz (once or twice, `equals`), a .nnkp file written by the harness (neighbours
     from exact integer arithmetic, b order permuted, lattice with 7 or 16 digits, real_lattice= / recip_lattice=
     overrides) -> from_nnkp -> judged by the same four oracles + b order = file order; reorder_mmn of that object
-    onto the first one; -> npz; at the end the first object must be unchanged by all later calls.
+    onto the first one; -> npz; select_kpoints (fewer k-points) on the last object of the history; at the end the first
+    object must be unchanged by all later calls.
 """
+import copy
 import os
 import shutil
 import sys
@@ -66,6 +71,7 @@ SEARCH_SUPERCELL = 2  # documented default of from_kpoints / find_bk_vectors (in
 KMESH_TOL = 1e-7      # documented default of from_kpoints / find_bk_vectors
 KMESH_TOL_NNKP = 1e-5  # documented default of from_nnkp
 BIG_SIZES = [22, 23, 26, 49, 64, 81, 100, 120]
+PENDING = os.environ.get("VERIF_C22_PENDING", "0") == "1"   # classes waiting for a decision of the coordinator
 LIB_BOX_MAX = 1.5e5   # cost guard for the new classes: number of index triples the library enumerates (~5 us each)
 
 
@@ -197,7 +203,7 @@ def setup(ctx):
 #  the four oracles, applied to any BKVectors object that claims to describe mesh S
 # ---------------------------------------------------------------------------------------------------------------
 def judge(ctx, bk, S, pre=""):
-    """S: basis, mpa, mp, kint, kred, NK, kirr, b1_atol, bk_tol_label, len_eq, len_tie, ssc, wit.
+    """S: basis, mpa, mp, kint, kred, NK, kirr, b1_atol, bk_tol_label, len_eq, len_tie, ssc, sphere, kt_enlarged, wit.
     Returns None after a structural violation, else a dict (bad, NNB, nshell, nG, index, nlen, blen, wscale)."""
     basis, mpa, mp, kint, kred, NK = S["basis"], S["mpa"], S["mp"], S["kint"], S["kred"], S["NK"]
     len_eq, len_tie, ssc, wit = S["len_eq"], S["len_tie"], S["ssc"], S["wit"]
@@ -283,6 +289,16 @@ def judge(ctx, bk, S, pre=""):
             outside = all(bool(np.any(np.abs(np.array(m)) > ssc * mpa)) for m in missing)
             mech = ("shell_incomplete:missing_vector_outside_search_supercell_box" if outside else
                     "shell_incomplete:missing_vector_inside_search_box")
+            if S["kt_enlarged"] and S.get("searched", True):
+                # finding 2 of the widening review (.work/review_c22_finding_2.py): the library searches the ball
+                # |k| < search_supercell*max|G_i|*(1-1e-6); a shell whose lengths are equal only within an enlarged
+                # kmesh_tol can straddle that radius and is then selected in part
+                mlen = np.array([np.linalg.norm(np.array(m) @ basis) for m in missing])
+                if np.all(mlen >= S["sphere"] * (1 - 1e-6) * (1 - 1e-12)):
+                    mech = "shell_incomplete:shell_straddles_search_sphere"
+                    if not PENDING:
+                        ctx.count("pending_shell_straddles_search_sphere")
+                        raise harness.Skip("pending finding: shell cut by the search sphere (enlarged kmesh_tol)")
             ctx.violation(pre + mech,
                           f"shell |b|={r:.9f}: {len(members)} selected, {len(same)} mesh vectors of that length; "
                           f"missing {missing[:6]} (library search box +-{(ssc * mpa).tolist()})",
@@ -589,6 +605,11 @@ def case(ctx, rng, idx, state):
             if ssc < SEARCH_SUPERCELL:
                 ctx.count("no_complete_set_with_search_supercell_1")
                 raise harness.Skip("no complete set with search_supercell=1 (not judged)")
+            if near != "exact":
+                # whether a nearly symmetric cell has a set that is complete to bk_complete_tol depends on how kmesh_tol
+                # (absolute) groups its almost equal lengths; the documentation promises nothing there
+                ctx.count("no_complete_set_on_nearly_symmetric_cell")
+                raise harness.Skip("no complete set on a nearly symmetric cell (not judged)")
             ctx.ev()
             ctx.violation("find_bk_vectors:no_complete_set_on_well_conditioned_lattice",
                           f"{kind} lattice (cond={cond:.2f}) mesh {mp}: {e}", wit)
@@ -610,7 +631,8 @@ def case(ctx, rng, idx, state):
     kirr = list(range(NK)) if kptirr is None else kptirr
     S = dict(basis=basis, mpa=mpa, mp=mp, kint=kint, kred=kred, NK=NK, kirr=kirr, b1_atol=b1_atol, bk_tol=bk_tol,
              bk_tol_label=("default 1e-5" if bk_tol is None else f"{bk_tol:g}"), len_eq=len_eq, len_tie=len_tie,
-             ssc=ssc, wit=wit)
+             ssc=ssc, wit=wit, kt_enlarged=bool(kt_eff > KMESH_TOL * (1 + 1e-12)),
+             sphere=float(ssc * np.linalg.norm(recip, axis=1).max()))
     snap = snapshot(bk)
     J = judge(ctx, bk, S)
     if J is None:
@@ -643,7 +665,7 @@ def case(ctx, rng, idx, state):
         tmp = None
         try:
             # ---- search_supercell: the set found must be that of the default (shells are tried by increasing radius)
-            if ssc != SEARCH_SUPERCELL:
+            if ssc != SEARCH_SUPERCELL and (PENDING or not S["kt_enlarged"]):
                 kw0 = {k: v for k, v in kw.items() if k != "search_supercell"}
                 try:
                     bk0 = BKVectors.from_kpoints(recip_lattice=recip.copy(), mp_grid=mpa.copy(),
@@ -697,9 +719,12 @@ def case(ctx, rng, idx, state):
                 bg_file = J["bg"][perm]
                 latvar = str(rng.choice(["digits16", "digits7+real_lattice", "digits7+recip_lattice",
                                          "digits16+real_lattice"]))
-                k_digits = int(rng.choice([8, 10, 12])) if digits is None or digits <= 8 else 12
+                # the file lists the exact mesh points i/N with 8 (Wannier90), 10 or 12 decimals: one rounding only
+                # (the mesh detection used by from_nnkp rounds to 8 decimals itself and then tolerates 5e-7/N)
+                k_digits = int(rng.choice([8, 10, 12]))
                 path = os.path.join(tmp, "x.nnkp")
-                write_nnkp(path, L, recip, kred, kint, mpa, bg_file, 16 if "digits16" in latvar else 7, k_digits)
+                write_nnkp(path, L, recip, kint / mpa[None, :], kint, mpa, bg_file, 16 if "digits16" in latvar else 7,
+                           k_digits)
                 kwn = {}
                 if "real_lattice" in latvar:
                     kwn["real_lattice"] = L.copy()
@@ -721,9 +746,9 @@ def case(ctx, rng, idx, state):
                 ctx.count("from_nnkp_calls")
                 bkn = BKVectors.from_nnkp(path, **kwn)
                 le, lt = len_zone(ktn)
-                kred_file = np.round(kred, k_digits)
+                kred_file = np.round(kint / mpa[None, :], k_digits)
                 Sn = dict(S, kred=kred_file, len_eq=max(le, len_eq) if ktn == kt_eff else le,
-                          len_tie=lt, wit=dict(wit, history=hist, nnkp_lattice=latvar, nnkp_kmesh_tol=ktn,
+                          len_tie=lt, searched=False, wit=dict(wit, history=hist, nnkp_lattice=latvar, nnkp_kmesh_tol=ktn,
                                                nnkp_order=perm))
                 ctx.ev()
                 if not np.array_equal(np.array(bkn.bk_grid), bg_file):
@@ -793,6 +818,30 @@ def case(ctx, rng, idx, state):
                         break
                     ctx.count("hist_npz_judged")
                     cur = new
+            # ---- restriction to fewer k-points (inherited public method, modifies neighbours / G in place)
+            if not bad and rng.random() < 0.25:
+                obj = cur if cur is not bk else copy.deepcopy(bk)
+                sel = [int(x) for x in rng.choice(kirr, int(rng.integers(1, len(kirr) + 1)), replace=False)]
+                ctx.count("select_kpoints_calls")
+                obj.select_kpoints(tuple(sel) if rng.random() < 0.5 else list(sel))
+                Js = judge(ctx, obj, dict(curS, kirr=sel, wit=dict(curS["wit"], history=hist, selected_kpoints=sel)),
+                           pre=curpre + "select_kpoints:")
+                if Js is None or Js["bad"]:
+                    bad = True
+                else:
+                    ctx.count("hist_select_kpoints_judged")
+                if not bad and PENDING:
+                    # outside the statement of C22 (a file round trip): the object restricted by select_kpoints keeps
+                    # its old kptirr, and from_npz of what it saves raises (see .work/review_c22_finding_1.py)
+                    path = os.path.join(tmp or tempfile.gettempdir(), "sel.npz")
+                    if tmp is None:
+                        os.makedirs(os.path.join(env.WORK, "c22"), exist_ok=True)
+                        tmp = tempfile.mkdtemp(dir=os.path.join(env.WORK, "c22"))
+                        path = os.path.join(tmp, "sel.npz")
+                    obj.to_npz(path)
+                    new = BKVectors.from_npz(path)
+                    judge(ctx, new, dict(curS, kirr=sel, wit=dict(curS["wit"], history=hist, selected_kpoints=sel)),
+                          pre=curpre + "select_kpoints:npz:")
             # ---- values returned earlier stay valid
             ctx.ev()
             ctx.count("first_object_unchanged_checked")
@@ -833,7 +882,8 @@ if __name__ == "__main__":
                      "B1 tolerance 10*bk_complete_tol+1e-9 = 1.1e-8 absolute when bk_complete_tol=1e-9 is passed, 1e-5 (the documented "
                      "default acceptance threshold) by default, t+1e-9 for a random t; neighbour relation in exact integers",
                      "the .nnkp files are written by the harness from exact integer arithmetic (Wannier90 layout)",
-                     "'Could not find a complete set' is judged only for kmesh_tol <= 1e-7 and search_supercell >= 2"],
+                     "'Could not find a complete set' is judged only for kmesh_tol <= 1e-7, search_supercell >= 2 and cells that "
+                     "are not nearly symmetric"],
         required_counters=("from_kpoints_calls", "tight_bk_complete_tol_calls", "default_bk_complete_tol_calls",
                            "random_bk_complete_tol_calls", "shells_checked", "multi_shell_sets",
                            "neighbour_relations_checked", "G_nonzero", "kptirr_subset", "setting_resetting",
@@ -843,7 +893,7 @@ if __name__ == "__main__":
                            "kmesh_tol_merged_shells_decided", "search_supercell_compared_with_default",
                            "argform_varied_calls", "argform_mp_grid_not_array", "inputs_unchanged_checked",
                            "find_bk_vectors_direct_calls", "hist_nnkp_judged", "hist_nnkp_lattice_override_judged",
-                           "from_nnkp_default_kmesh_tol", "hist_reorder_mmn_judged", "hist_npz_judged",
+                           "from_nnkp_default_kmesh_tol", "hist_reorder_mmn_judged", "hist_npz_judged", "hist_select_kpoints_judged",
                            "first_object_unchanged_checked") + tuple(f"kind_{k}" for k in KINDS),
         min_nontrivial=50,
     )
